@@ -65,7 +65,7 @@ func main() {
 	timed(c, "write-back", func() { c.Cases("write-back", c.N(pick(race, 200, 2400), pick(race, 1500, 40000)), func(i int, r *vlib.Rand) { writebackCase(c, i, r) }) })
 	timed(c, "atomicity-sampler", func() { c.Cases("atomicity-sampler", c.N(pick(race, 2, 8), pick(race, 4, 32)), func(i int, r *vlib.Rand) { samplerCase(c, i, r) }) })
 	timed(c, "concurrency", func() { c.Cases("concurrency", c.N(pick(race, 8, 24), pick(race, 32, 160)), func(i int, r *vlib.Rand) { stressCase(c, i, r) }) })
-	timed(c, "snapshot", func() { c.Cases("snapshot", c.N(pick(race, 8, 24), pick(race, 32, 160)), func(i int, r *vlib.Rand) { snapCase(c, i, r) }) })
+	timed(c, "snapshot", func() { c.Cases("snapshot", c.N(pick(race, 8, 24), pick(race, 16, 96)), func(i int, r *vlib.Rand) { snapCase(c, i, r) }) })
 	if !race {
 		timed(c, "hostile-syntax", func() { c.Cases("hostile-syntax", 6, func(i int, r *vlib.Rand) { hostileCase(c, i, r) }) })
 		if c.Thorough() {
